@@ -98,6 +98,8 @@ Qed.
 Lemma walk_top_thaw : forall st s o, walk_top (thaw st) s o = walk_top st s o.
 Proof. intros. unfold walk_top. now rewrite walk_val_thaw. Qed.
 
+Local Opaque walk_val.
+
 Lemma direct_match_thaw : forall st d v, direct_match (thaw st) d v = direct_match st d v.
 Proof.
   intros st d v. destruct d, v; simpl; auto; rewrite get_thaw; destruct (get st oid); reflexivity.
@@ -181,19 +183,19 @@ Lemma call_key_thaw : forall st o k, call_key o k (thaw st) = (thaw st, pure_key
 Proof.
   intros st o k.
   assert (Hp : forall s f, call_pit o s f (thaw st) = (thaw st, p_pit st o s)).
-  { intros s f. unfold call_pit. rewrite cached_thaw. unfold p_pit. destruct (has_obj st o); auto.
+  { intros s f. unfold call_pit. rewrite cached_thaw. unfold p_pit. destruct (has_obj st o); [|reflexivity].
     unfold body_pit, gets. now rewrite walk_top_thaw. }
   assert (Ha : forall s f, call_attr o s f (thaw st) = (thaw st, p_attr st o s)).
-  { intros s f. unfold call_attr. rewrite cached_thaw. unfold p_attr. destruct (has_obj st o); auto.
+  { intros s f. unfold call_attr. rewrite cached_thaw. unfold p_attr. destruct (has_obj st o); [|reflexivity].
     unfold body_attr, bind. rewrite Hp. destruct (p_pit st o s) as [[l|]|e]; reflexivity. }
   assert (Hu : call_unique o (thaw st) = (thaw st, p_unique st o)).
-  { unfold call_unique. rewrite cached_thaw. unfold p_unique. destruct (has_obj st o); auto.
+  { unfold call_unique. rewrite cached_thaw. unfold p_unique. destruct (has_obj st o); [|reflexivity].
     unfold body_unique, bind. rewrite Ha. destruct (p_attr st o SPrior) as [[l|]|e]; reflexivity. }
   destruct k; cbn [pure_key call_key]; [apply Hp|apply Ha|exact Hu| |].
-  - unfold call_ordered. rewrite cached_thaw. unfold p_ordered. destruct (has_obj st o); auto.
+  - unfold call_ordered. rewrite cached_thaw. unfold p_ordered. destruct (has_obj st o); [|reflexivity].
     unfold body_ordered, bind. rewrite Hu. destruct (p_unique st o) as [[l|]|e]; reflexivity.
   - unfold call_direct. rewrite cached_thaw. unfold p_direct, has_obj.
-    destruct (get st o) eqn:G; auto. unfold body_direct, gets. rewrite get_thaw, G. simpl.
+    destruct (get st o) eqn:G; [|reflexivity]. unfold body_direct, gets. rewrite get_thaw, G. cbn [option_map].
     now rewrite direct_items_thaw.
 Qed.
 
@@ -255,6 +257,7 @@ Proof. intros. unfold get, put. simpl. now apply nth_error_update_neq. Qed.
 Lemma skel_put_cache : forall st o ob c, get st o = Some ob -> skel (put st o (with_cache ob c)) = skel st.
 Proof.
   intros st o ob c G. unfold skel, put. simpl. f_equal. rewrite map_update.
+  change (skel_obj (with_cache ob c)) with (skel_obj ob).
   apply update_same. unfold get in G. now apply map_nth_error.
 Qed.
 
@@ -289,7 +292,7 @@ Proof.
         destruct (Nat.eq_dec o o') as [->|Hne].
         -- rewrite (get_put_eq _ _ _ _ G1) in G'. inversion G'; subst ob'. simpl in L'.
            destruct (ckey_eqb k' k) eqn:Ek.
-           ++ apply ckey_eqb_eq in Ek. subst k'. now inversion L'.
+           ++ apply ckey_eqb_eq in Ek. subst k'. injection L' as <-. exact PK.
            ++ now apply (V1 o' ob1 k' v').
         -- rewrite get_put_neq in G' by auto. now apply (V1 o' ob' k' v').
       * intros o' ob' G' F'. destruct (Nat.eq_dec o o') as [->|Hne].
